@@ -38,6 +38,12 @@ def tasks(tier, params):
     out.append(('UNKNOWN', {'code': 65280, 'K': K}))
     out.append(('overrun', {'code': 1, 'K': K, 'overrun': True}))
     out.append(('OPT', {'code': 41, 'K': K + 2, 'opt': True}))
+    # RDLENGTH running past the end of the message for types whose content would also fit in the bytes that are there
+    for name, code in (('NULL', 10), ('UNKNOWN', 65280), ('TXT', 16)):
+        out.append(('overrun.' + name, {'code': code, 'K': K, 'overrun_opaque': True}))
+    # order: an OPT record at every position among three A records of the additional section - the A records come back in wire order
+    for pos in range(4):
+        out.append(('order.opt%d' % pos, {'code': 41, 'K': 0, 'order': pos}))
     # C01.alloc on record level: three minimal records of the types that own collections; the elements requested through
     # Vec::with_capacity while parsing must not exceed the message length
     for name, code, rd in (('TXT', 16, [0]), ('NSEC', 47, [0]), ('SVCB', 64, [0, 0, 0]), ('HTTPS', 65, [0, 0, 0])):
@@ -90,9 +96,107 @@ def run_alloc3(prog, tid, params):
     return out
 
 
+def run_order(prog, tid, params):
+    f_parse = [f for t, f in prog.methods[('Packet', 'parse')] if t is None][0]
+    addrs = [sym('addr%d' % k, 'u32') for k in range(3)]
+    recs = [[mk('u8', 0)] + be_bytes(mk('u16', 1)) + be_bytes(mk('u16', 1)) + be_bytes(sym('ttl%d' % k, 'u32')) + be_bytes(mk('u16', 4)) + be_bytes(addrs[k])
+            for k in range(3)]
+    opt = [mk('u8', 0)] + be_bytes(mk('u16', 41)) + be_bytes(sym('udp', 'u16')) + be_bytes(sym('ottl', 'u32')) + be_bytes(mk('u16', 0))
+    recs.insert(params['order'], opt)
+    msg = be_bytes(sym('id', 'u16')) + [mk('u8', 0)] * 2 + be_bytes(mk('u16', 0)) * 3 + be_bytes(mk('u16', 4))
+    for r in recs:
+        msg += r
+    stats = {}
+    ok = [0]
+
+    def run(I):
+        return I.call_function(f_parse, [X.byte_buffer(I, msg)], {})
+
+    def on_path(res):
+        def viol(role, what):
+            m = res.ctx.model()
+            return {'status': 'violation', 'role': role, 'detail': '%s: %s' % (tid, what),
+                    'cex': {'entry': 'packet_order', 'bytes': X.model_bytes(m, msg), 'addrs': ','.join(str(m.eval(a.z(), model_completion=True).as_long()) for a in addrs),
+                            'expect': {'any_failure': True}}}
+        if res.kind == 'panic':
+            return viol('panic', 'Packet::parse panics: ' + res.msg)
+        if res.kind != 'return':
+            return None
+        r = res.value
+        if r.var != 'Ok':
+            return viol('rejected', 'a well-formed message with an OPT record among three A records is rejected')
+        ok[0] += 1
+        p = r.f[0]
+        add = list(p.f[4].items)
+        if len(add) != 3 or p.f[0].f[4].var != 'Some':
+            return viol('count', '%d additional records returned, opt %s' % (len(add), p.f[0].f[4].var))
+        if any(not (isinstance(x.f[3], En) and x.f[3].var == 'A') for x in add) or \
+                res.ctx.check(z3.Or([x.f[3].f[0].f[0].z() != a.z() for x, a in zip(add, addrs)])):
+            return viol('order', 'the additional records are not returned in the order of the wire')
+        return None
+    v = X.explore(prog, run, on_path, loop_bound=64, stats=stats, timeout_ms=60000, max_paths=20000, hooks=HOOKS)
+    out = {'paths': stats.get('paths', 0), 'queries': stats.get('queries', 0), 'solver_s': stats.get('solver_s', 0.0),
+           'outcomes': stats.get('outcomes', {}), 'functions': stats.get('functions', set()), 'covers': {'ok': ok[0]},
+           'covers_witnessed': 1 if ok[0] else 0}
+    if v is not None:
+        out.update(v)
+    elif not ok[0]:
+        out['status'] = 'inconclusive'
+        out['detail'] = 'vacuous: the message is not accepted'
+    return out
+
+
+def run_overrun_opaque(prog, tid, params):
+    """header | A record | one record of an opaque / string type whose RDLENGTH announces 1..3 bytes more than the message holds"""
+    f_parse = [f for t, f in prog.methods[('Packet', 'parse')] if t is None][0]
+    agg = {'paths': 0, 'queries': 0, 'solver_s': 0.0, 'outcomes': {}, 'functions': set(), 'covers': {'err': 0}}
+    for present in range(0, params['K'] + 1):
+        for extra in (1, 2, 3):
+            stats = {}
+            msg = be_bytes(sym('id', 'u16')) + [mk('u8', 0)] * 2 + be_bytes(mk('u16', 0)) + be_bytes(mk('u16', 2)) + [mk('u8', 0)] * 4
+            msg += [mk('u8', 0)] + be_bytes(mk('u16', 1)) + be_bytes(mk('u16', 1)) + be_bytes(sym('ttl1', 'u32')) + be_bytes(mk('u16', 4)) + be_bytes(sym('addr', 'u32'))
+            msg += [mk('u8', 0)] + be_bytes(mk('u16', params['code'])) + be_bytes(mk('u16', 1)) + be_bytes(sym('ttl2', 'u32')) + \
+                be_bytes(mk('u16', present + extra)) + [sym('rd%d' % i, 'u8') for i in range(present)]
+
+            def run(I):
+                return I.call_function(f_parse, [X.byte_buffer(I, msg)], {})
+
+            def on_path(res):
+                def viol(role, what):
+                    m = res.ctx.model()
+                    return {'status': 'violation', 'role': role, 'detail': '%s present=%d announced=%d: %s' % (tid, present, present + extra, what),
+                            'cex': {'entry': 'packet_parse', 'bytes': X.model_bytes(m, msg), 'expect': {'outcome': 'ok'}}}
+                if res.kind == 'panic':
+                    return {'status': 'violation', 'role': 'panic', 'detail': '%s: Packet::parse panics: %s' % (tid, res.msg),
+                            'cex': {'entry': 'packet_parse', 'bytes': X.model_bytes(res.ctx.model(), msg), 'expect': {'outcome': 'panic'}}}
+                if res.kind != 'return':
+                    return None
+                if res.value.var == 'Ok':
+                    return viol('overrun', 'a message whose last RDLENGTH runs past its end is accepted')
+                agg['covers']['err'] += 1
+                return None
+            v = X.explore(prog, run, on_path, loop_bound=64, stats=stats, timeout_ms=60000, max_paths=20000, hooks=HOOKS)
+            agg['paths'] += stats.get('paths', 0)
+            agg['queries'] += stats.get('queries', 0)
+            agg['solver_s'] += stats.get('solver_s', 0.0)
+            agg['functions'].update(stats.get('functions', ()))
+            if v is not None:
+                agg.update(v)
+                return agg
+    agg['covers_witnessed'] = 1 if agg['covers']['err'] else 0
+    if not agg['covers']['err']:
+        agg['status'] = 'inconclusive'
+        agg['detail'] = 'vacuous'
+    return agg
+
+
 def run_task(prog, tid, params, tier):
     if 'alloc3' in params:
         return run_alloc3(prog, tid, params)
+    if 'overrun_opaque' in params:
+        return run_overrun_opaque(prog, tid, params)
+    if 'order' in params:
+        return run_order(prog, tid, params)
     f_parse = [f for t, f in prog.methods[('Packet', 'parse')] if t is None][0]
     code, K = params['code'], params['K']
     agg = {'paths': 0, 'queries': 0, 'solver_s': 0.0, 'outcomes': {}, 'functions': set(), 'covers': {'ok': 0, 'err': 0}}
